@@ -5,6 +5,7 @@ ALLCONF = ['default', 'asm', 'int128struct', 'int64', 'verify']
 # how a configuration name maps to a harness build / run
 CONFIG_RUN = {
     'default': {}, 'asm': {}, 'int128struct': {}, 'int64': {}, 'verify': {}, 'o2': {},
+    'tsan': {'build': 'tsan', 'sanitize': False, 'only': ['ctx_threads'], 'env': {'TSAN_OPTIONS': 'halt_on_error=1:exitcode=98'}},
 }
 
 def C(quick, thorough=None):
@@ -31,5 +32,7 @@ PROPS = {
     'C16': {'gens': ['c16'], 'configs': C(['default', 'int64'])},
     'C17': {'gens': ['c17'], 'configs': C(['default', 'int64'])},
     'C18': {'gens': ['c18'], 'configs': C(['default', 'int64'])},
+    'C20': {'gens': ['c20'], 'configs': C(['default', 'int64', 'tsan'], ['default', 'asm', 'int128struct', 'int64', 'verify', 'tsan']),
+            'audit_statics': True},
     'C19': {'gens': ['c19'], 'configs': C(['default', 'int64'])},
 }
